@@ -365,6 +365,90 @@ def r5(repo, run):
         run.ok('C12.R5', fi, 'operand encoding evaluated for %s x 6 operand bytes (%d redirecting paths)' % (decoded_ops, rows), 'name index read and LOAD_ATTR / re-emitted operands agree with %s' % os.path.basename(path))
 
 
+def r5b(repo, run):
+    """relocation of relative jumps evaluated: one iteration of the loop over the recorded relative jumps is interpreted; the old
+    absolute target it looks up in the location map is computed for concrete (position, distance) pairs and every jump opcode name -
+    a jump whose name says BACKWARD goes back by its operand, every other one forward (this interpreter counts in code units)"""
+    import sys
+    fi = repo.func('EvalNode._patch_access_to_globals')
+    fam = _family(repo, fi)
+    holder = None
+    for g in fam:
+        for st in ast.walk(g.node):
+            if isinstance(st, ast.For) and 'BACKWARD' in norm(st):
+                holder = (g, st)
+    if holder is None:
+        raise AnalysisError('_patch_access_to_globals: the loop that re-targets relative jumps (BACKWARD test) was not found')
+    g, loop = holder
+    top = loop
+    while getattr(top, '_parent', None) is not g.node:
+        top = getattr(top, '_parent', None)
+        if top is None:
+            raise AnalysisError('_patch_access_to_globals: jump loop is not inside the function body')
+    # the loop is interpreted on its own: what it reads from the rest of the function (the recorded jump positions, the two
+    # location maps, the rewritten code units) are free symbols
+    from ..srcmodel import FuncInfo
+    bound = {n.id for n in ast.walk(loop) if isinstance(n, ast.Name) and isinstance(n.ctx, ast.Store)}
+    free = sorted({n.id for n in ast.walk(loop) if isinstance(n, ast.Name) and isinstance(n.ctx, ast.Load)} - bound - {'python_is_at_least', 'dis', 'abs', 'len', 'range', 'True', 'False', 'None'})
+    synth = ast.FunctionDef(name='%s__jump_loop' % g.name, args=ast.arguments(posonlyargs=[], args=[ast.arg(arg=n) for n in free], kwonlyargs=[], kw_defaults=[], defaults=[]),
+                            body=[loop], decorator_list=[], returns=None, type_comment=None)
+    ast.copy_location(synth, loop)
+    synth.end_lineno = loop.end_lineno
+    paths = Tracer(repo, follow_exceptions=False, max_paths=40000).trace(FuncInfo(synth, g.module), upto=None)
+    base = dict(tr.module_consts(g.module))
+    for v in ((3, 8), (3, 9), (3, 10), (3, 11), (3, 12), (3, 13), (3, 14)):
+        base['python_is_at_least(%d, %d)' % v] = tuple(sys.version_info[:2]) >= v
+    J, R = 10, 4
+    rows = 0
+    bad = set()
+    seen_store = False
+    for p in paths:
+        for e in p.events:
+            if e.kind != 'store' or e.value is None or e.node is None or not (loop.lineno <= getattr(e.node, 'lineno', 0) <= loop.end_lineno):
+                continue
+            v = e.value.ast
+            if not (isinstance(v, ast.BinOp) and isinstance(v.op, ast.Add) and isinstance(v.right, ast.Call) and isinstance(v.right.func, ast.Attribute) and v.right.func.attr == 'to_bytes'):
+                continue
+            new_rel = v.right.func.value
+            subs = [x for x in ast.walk(new_rel) if isinstance(x, ast.Subscript) and 'each(' in norm(x.slice) and not isinstance(x.slice, ast.Constant)]
+            # the location-map lookup: the subscript whose index is itself computed from the jump's position and operand
+            look = [x for x in subs if any(isinstance(y, ast.BinOp) for y in ast.walk(x.slice))]
+            if not look:
+                continue
+            seen_store = True
+            idx = look[0].slice
+            subst0 = {}
+            optext = None
+            for x in ast.walk(idx):
+                if isinstance(x, ast.Subscript) and isinstance(x.slice, ast.Constant) and x.slice.value == 1 and isinstance(x.value, ast.Subscript) and norm(x.value.slice).startswith('each('):
+                    subst0[norm(x)] = R
+                    optext = norm(ast.Subscript(value=x.value, slice=ast.Constant(value=0), ctx=ast.Load()))
+            for x in ast.walk(idx):
+                if isinstance(x, ast.Subscript) and norm(x.slice).startswith('each(') and norm(x) not in subst0 and not any(norm(x) in k for k in subst0):
+                    subst0[norm(x)] = J
+            if optext is None or len(subst0) < 2:
+                raise AnalysisError('_patch_access_to_globals: operand / position of a relative jump not recognised in %s' % norm(idx)[:80])
+            for opname in ('JUMP_BACKWARD', 'JUMP_BACKWARD_NO_INTERRUPT', 'JUMP_FORWARD', 'POP_JUMP_IF_FALSE', 'FOR_ITER', 'SEND'):
+                sub = dict(base)
+                sub['dis.opname[%s]' % optext] = opname
+                if not tr.feasible(p, sub)[0]:
+                    continue
+                try:
+                    got = tr._ev_const(idx, dict(sub, **subst0))
+                except tr._Unknown:
+                    raise AnalysisError('_patch_access_to_globals: old target of a relative jump not evaluable (%s)' % norm(idx)[:80])
+                rows += 1
+                want = J - R if 'BACKWARD' in opname else J + R
+                if got != want:
+                    bad.add('a %s at code unit %d with operand %d is taken to target unit %r, expected %d (%s jumps go %s)' % (opname, J, R, got, want, 'BACKWARD' if 'BACKWARD' in opname else 'other', 'back' if 'BACKWARD' in opname else 'forward'))
+    if not seen_store or rows < 4:
+        raise AnalysisError('_patch_access_to_globals: re-targeting of relative jumps not recognised (%d rows)' % rows)
+    if bad:
+        run.violation('C12.R5', fi, 're-targeting of relative jumps', '; '.join(sorted(bad)[:2]) + ': loops / conditionals in evaluated code jump to the wrong instruction after a name load was redirected')
+    else:
+        run.ok('C12.R5', fi, 're-targeting of relative jumps evaluated for 6 jump opcodes (%d rows)' % rows, 'backward jumps subtract their operand, all others add it')
+
+
 def r6(repo, run):
     loop = _decode_loop(repo.func('EvalNode._patch_access_to_globals'), repo)
     fi, paths = _patcher_paths(repo, loop)
@@ -515,6 +599,7 @@ def check(repo, run, tier):
     g(r3, repo, run)
     g(r4, repo, run)
     g(r5, repo, run)
+    g(r5b, repo, run)
     g(r6, repo, run)
     g(unitrules.config_entry, repo, run, 'C12.R9')
     g(unitrules.eval_context_init, repo, run, 'C12.R1')
@@ -524,6 +609,8 @@ def check(repo, run, tier):
 
 def mutants(repo):
     return [
+        Mutant('backward-jumps-go-forward', lambda r: in_func(r, 'EvalNode._patch_access_to_globals', "            if is_backward:\n                old_loc_abs = old_jump_loc - old_loc_rel", "            if not is_backward:\n                old_loc_abs = old_jump_loc - old_loc_rel"), ['C12.R5']),
+        Mutant('backward-flag-never-set', lambda r: in_func(r, 'EvalNode._patch_access_to_globals', "                is_backward = True\n", "                is_backward = False\n"), ['C12.R5']),
         Mutant('leading-lines-not-executed', lambda r: in_func(r, 'EvalNode.ayns.on_evaluate_impl', "            exec(exec_code_patched, gbls)\n", ""), ['C12.R10']),
         Mutant('published-module-empty', lambda r: in_func(r, 'EvalNode.ayns.on_evaluate_impl', "            eval_node_module.__dict__.update(gbls)\n", ""), ['C12.R10']),
         Mutant('publish-condition-negated', lambda r: in_func(r, 'EvalNode.ayns.on_evaluate_impl', "if len(lines) > 1 and self.persistent_namespace and not from_module:", "if not (len(lines) > 1 and self.persistent_namespace and not from_module):"), ['C12.R1b']),
